@@ -228,6 +228,9 @@ static void run() {
     else if (c == "mergemany") { int64_t k = nint(); ContentPtrVec cs((size_t)k); for (int64_t j = k - 1; j >= 0; j--) cs[(size_t)j] = pop(); ContentPtr a = pop(); stack.push_back(a.get()->mergemany(cs)); }
     else if (c == "fillna") { ContentPtr v = pop(); ContentPtr a = pop(); stack.push_back(a.get()->fillna(v)); }
     else if (c == "simplify") { ContentPtr a = pop(); stack.push_back(a.get()->shallow_simplify()); }
+    else if (c == "viewfrom") { int64_t k = nint(); ContentPtr x = pop();      // the same lists from list k on, as a view into the same offsets buffer
+      if (ListOffsetArray64* r = dynamic_cast<ListOffsetArray64*>(x.get())) stack.push_back(std::make_shared<ListOffsetArray64>(noid, noparams, r->offsets().getitem_range_nowrap(k, r->offsets().length()), r->content()));
+      else throw std::runtime_error("akrun: viewfrom on something that is not a ListOffsetArray64"); }
     else if (c == "validity") { ContentPtr a = pop(); std::string e = a.get()->validityerror("layout"); for (size_t i = 0; i < e.size(); i++) if (e[i] == 10 || e[i] == 13 || e[i] == 34 || e[i] == 92) e[i] = 32;
       printf("OK %s\n", e.empty() ? "\"\"" : ("\"" + e + "\"").c_str()); fflush(stdout); _Exit(0); }
     else if (c == "depths") { ContentPtr a = pop(); std::pair<int64_t, int64_t> mm = a.get()->minmax_depth(); std::pair<bool, int64_t> bd = a.get()->branch_depth();
